@@ -61,6 +61,11 @@ extern "C" void h_trunc() {
     vp_fs_truncate("a.blf", t);
     {
     File g;
+#ifdef SCALED_STREAM
+    // back-pressure threshold scaled down to one container: the decoder reaches the object that the cut has damaged before
+    // the inflater has seen the end of the file (as in a long file)
+    g.m_uncompressedFile.setBufferSize(CFG_CONTAINER < 16 ? 16 : CFG_CONTAINER);
+#endif
     bool threw = false;
     try { g.open(VP_FILE("a.blf"), std::ios_base::in); } catch (const Exception &) { threw = true; }
     int cnt = 0;
